@@ -298,12 +298,42 @@ def annotation_reuse_cases(out):
                 return
 
 
+class _ShapeOnly:
+    shape = (3,)
+
+
+class _DtypeOnly:
+    dtype = "float32"
+
+
+def not_array_like_cases(out):
+    """the first stage of every check with array type `Any`: a value is matched against the dim string only if it has both
+    `.shape` and `.dtype`; anything else is answered False (not an exception), whatever the dim string"""
+    import typing
+
+    import numpy as np
+    from jaxtyping import Float, Shaped
+
+    values = [("memoryview", memoryview(b"abc")), ("shape-only object", _ShapeOnly()), ("dtype-only object", _DtypeOnly()), ("np.dtype", np.dtype("float32")), ("int", 3)]
+    for cat in (Float, Shaped):
+        for dims in ("3", "n", "...", "", "#3 *b"):
+            ann = cat[typing.Any, dims]
+            for vname, v in values:
+                r = impl.check_once(v, ann)
+                out.case(("not-array-like", cat.__name__, dims, vname), True, sample={"value": vname, "dims": dims, "verdict": r})
+                if r != "F":
+                    out.violation(f"not-array-like:{vname}", f"isinstance(<{vname}>, {cat.__name__}[Any, {dims!r}]) gives {r}; a value without both .shape and .dtype is "
+                                  f"not an array, the answer is False", {"not_array_like": vname})
+                    return
+
+
 def run(tier, seed, out, drv, facts):
     rng = Rng(seed, "C01")
     thorough = tier == "thorough"
     oracle_symbolic(out)
     call_argument_cases(out)
     annotation_reuse_cases(out)
+    not_array_like_cases(out)
     # corpus first
     # 1. exhaustive small scope
     batch = []
@@ -356,6 +386,9 @@ def replay(rep, out, drv, facts):
         return
     if "annotation_reuse" in rep:
         annotation_reuse_cases(out)
+        return
+    if "not_array_like" in rep:
+        not_array_like_cases(out)
         return
     hist = rep["history"]
     run_batch(out, drv, [(hist, rep.get("args") or {})], facts, "replay", use_numpy=rep.get("numpy", False))
